@@ -9,6 +9,11 @@
                     fold the proposal is set when none exists yet and is kept (not replaced) by later unassigned candidates;
                     version sets are walked in the requirement's order zipped with the cached lists
   union-order       union members are kept in sequences (Pool: SmallVec in listing order; snapshot: Vec) - no hash order
+
+Added after the second and third seeding rounds:
+  proposal-carried-across-version-sets   the fold over a later union member starts from the running proposal
+  variables-not-edited-after-construction the per-version-set variable lists stored for decide() are never mutably borrowed
+  first-then-others                       a union is stored as [first, others...] whether built by fold or by a loop
 """
 from common import *
 import q, enc, mech, c20
